@@ -342,6 +342,44 @@ func main() {
 		}
 	}
 	concCases.Flush()
+
+	// ---- readiness polled while a registration / ready-mark is in flight ----
+	// A store (AddReadiness / OnReady) is paused just before it takes the map's lock; meanwhile another goroutine
+	// polls IsReady and asks for the status; then the store completes.  Once everything is quiescent, IsReady and
+	// the status must be those of the sequential history: nothing answered during the window may stick.
+	for i := 0; i < *nc/3+1; i++ {
+		names := 1 + r.Intn(4)
+		pre := genOps(r, r.Intn(7), names)
+		o := genOps(r, 1, names)[0]
+		h := health.NewHealth()
+		for _, x := range pre {
+			apply(h, x)
+		}
+		ctl.ResetTrace()
+		paused := ctl.StartVictim(func() { apply(h, o) }, 0)
+		polled := false
+		if paused {
+			polled = h.IsReady()
+			_, _ = observe(h, false)
+			ctl.Resume()
+			ctl.WaitVictim()
+		}
+		ctl.ResetTrace()
+		hist := append(append([]op{}, pre...), o)
+		ob, oerr := observe(h, true)
+		msg := ""
+		if oerr != nil {
+			msg = oerr.Error()
+		} else {
+			msg = oracle(hist, ob, true)
+		}
+		if msg != "" {
+			sum.Fail("oracle", "after a readiness poll that ran while a store was in flight, the quiescent answers are not those of the history: "+msg,
+				map[string]any{"mode": "poll-during-store", "pre": pre, "store": o, "polled_is_ready": polled, "observed": ob})
+		}
+		sum.Count("poll:"+fmt.Sprint(pre, o), paused)
+		sum.Dist("poll_during_store")
+	}
 	common.VerifHook = nil
 
 	// ---- WaitForReady ----
@@ -420,6 +458,7 @@ func doReplay(path string) int {
 			Pre  []op   `json:"pre"`
 			Mid  []op   `json:"stores_while_paused"`
 			K    int    `json:"paused_before_lock_index"`
+			St   *op    `json:"store"`
 		} `json:"replay"`
 	}
 	if err := json.Unmarshal(raw, &rp); err != nil {
@@ -474,6 +513,36 @@ func doReplay(path string) int {
 		}
 		fmt.Printf("REPRODUCED: answer %s is not a consistent snapshot: %s\n", ob.Raw, msg)
 		return 1
+	case "poll-during-store":
+		if rp.Replay.St == nil {
+			fmt.Println("replay carries no store")
+			return 2
+		}
+		ctl := hutil.NewCtl()
+		common.VerifHook = ctl.Hook
+		h := health.NewHealth()
+		for _, o := range rp.Replay.Pre {
+			apply(h, o)
+		}
+		if ctl.StartVictim(func() { apply(h, *rp.Replay.St) }, 0) {
+			_ = h.IsReady()
+			_, _ = observe(h, false)
+			ctl.Resume()
+			ctl.WaitVictim()
+		}
+		common.VerifHook = nil
+		ob, err := observe(h, true)
+		if err == nil {
+			if msg := oracle(append(append([]op{}, rp.Replay.Pre...), *rp.Replay.St), ob, true); msg != "" {
+				err = errors.New(msg)
+			}
+		}
+		if err != nil {
+			fmt.Printf("REPRODUCED poll-during-store: %v (answer %s)\n", err, ob.Raw)
+			return 1
+		}
+		fmt.Println("not reproduced")
+		return 0
 	default:
 		fmt.Println("unknown replay mode", rp.Replay.Mode)
 		return 2
